@@ -15,7 +15,7 @@ import (
 func plans(prop, tier string) []drv.Plan {
 	var ps []drv.Plan
 	add := func(P, W, N int, mode, rec, end string, bound int) {
-		ps = append(ps, drv.Plan{Scenario: params{P, W, N, mode, rec, end}.name(), Bound: bound, MaxSteps: 4000, Cache: true, Single: true})
+		ps = append(ps, drv.Plan{Scenario: fmt.Sprintf("P%dW%dN%d/%s/%s/%s", P, W, N, mode, rec, end), Bound: bound, MaxSteps: 4000, Cache: true, Single: true})
 	}
 	type shape struct{ P, W, N int }
 	q := tier == "quick"
@@ -44,6 +44,13 @@ func plans(prop, tier string) []drv.Plan {
 				if !q {
 					add(s.P, s.W, s.N, mode, "block2", "noclose", bb)
 				}
+			}
+		}
+		// no alerter: overflowing the ring must stay silent - the destination only ever receives what was written
+		for _, s := range []shape{{1, 3, 1}, {2, 2, 1}, {1, 4, 2}} {
+			for _, mode := range []string{"waiter-na", "poller-na"} {
+				add(s.P, s.W, s.N, mode, "normal", "close", b)
+				add(s.P, s.W, s.N, mode, "block1", "noclose", b)
 			}
 		}
 		// a destination that reports an error for one delivery: still exactly one delivery per Write
@@ -89,6 +96,12 @@ func plans(prop, tier string) []drv.Plan {
 				add(s.P, s.W, s.N, mode, "normal", "noclose", b)
 				add(s.P, s.W, s.N, mode, "normal", "close", b)
 			}
+		}
+		// a writer that is closed without ever having been written to (every event was filtered out)
+		for _, mode := range []string{"waiter", "poller"} {
+			add(1, 0, 1, mode, "normal", "close", b)
+			add(1, 0, 2, mode, "normal", "closeearly", b)
+			add(1, 0, 1, mode, "normal", "noclose", b)
 		}
 		// Close racing with the Writes: it must still return, and no producer may block
 		for _, s := range []shape{{1, 1, 1}, {1, 2, 2}, {2, 1, 2}, {1, 2, 1}} {
